@@ -806,20 +806,44 @@ pub fn divide_before_multiply(f: &File) -> Vec<Site> {
     out
 }
 
+/// The value of a pragma directive without the comments written inside it (for this lexer the
+/// value is the raw text up to the `;`, comments included); each comment counts as a blank.
+pub fn pragma_value_without_comments(raw: &str) -> String {
+    let b: Vec<char> = raw.chars().collect();
+    let mut out = String::new();
+    let mut i = 0;
+    while i < b.len() {
+        if b[i] == '/' && i + 1 < b.len() && b[i + 1] == '*' {
+            i += 2;
+            while i < b.len() && !(b[i] == '*' && i + 1 < b.len() && b[i + 1] == '/') {
+                i += 1;
+            }
+            i = (i + 2).min(b.len());
+            out.push(' ');
+        } else if b[i] == '/' && i + 1 < b.len() && b[i + 1] == '/' {
+            while i < b.len() && b[i] != '\n' {
+                i += 1;
+            }
+            out.push(' ');
+        } else {
+            out.push(b[i]);
+            i += 1;
+        }
+    }
+    out
+}
+
 pub fn floating_pragma(f: &File) -> Vec<Site> {
     let mut out = Vec::new();
     for p in &f.su.0 {
         if let pt::SourceUnitPart::PragmaDirective(loc, id, val) = p {
-            let v = val.string.trim();
+            let stripped = pragma_value_without_comments(&val.string);
+            let v = stripped.trim();
             let is_ver = |s: &str| {
                 let parts: Vec<&str> = s.split('.').collect();
                 parts.len() == 3 && parts.iter().all(|p| !p.is_empty() && p.chars().all(|c| c.is_ascii_digit()))
             };
             if id.name == "solidity" {
-                if v.contains("/*") || v.contains("//") {
-                    out.push(site(loc.start(), false, "commented-pragma-value", "SourceUnit.part"));
-                    continue;
-                }
                 if let Some(rest) = v.strip_prefix('^') {
                     if is_ver(rest.trim()) {
                         out.push(site(loc.start(), true, "^X.Y.Z", "SourceUnit.part"));
@@ -830,9 +854,7 @@ pub fn floating_pragma(f: &File) -> Vec<Site> {
                 let bytes = v.as_bytes();
                 let caret_range = (0..bytes.len()).any(|i| bytes[i] == b'^' && v[i + 1..].trim_start().chars().next().map(|c| c.is_ascii_digit()).unwrap_or(false));
                 if caret_range {
-                    // a comment inside the value is part of the value for this lexer: a caret there decides nothing
-                    let commented = v.contains("/*") || v.contains("//");
-                    out.push(site(loc.start(), !commented, if commented { "caret-in-commented-pragma-value" } else { "caret-range-in-compound-pragma" }, "SourceUnit.part"));
+                    out.push(site(loc.start(), true, "caret-range-in-compound-pragma", "SourceUnit.part"));
                     continue;
                 }
                 if is_ver(v) || v.strip_prefix('=').map(|r| is_ver(r.trim())).unwrap_or(false) {
@@ -1309,7 +1331,8 @@ pub fn single_solidity_version(su: &pt::SourceUnit) -> Option<(u64, u64, u64)> {
                 if found.is_some() {
                     return None;
                 }
-                let v = val.string.trim();
+                let stripped = pragma_value_without_comments(&val.string);
+                let v = stripped.trim();
                 if v.starts_with('<') {
                     return None; // an upper bound names the version the file cannot use: not among the decided spellings
                 }
